@@ -96,6 +96,18 @@ struct checker {
                     vh::viol(key("write-through-lost"), vh::cat("word=", m.word(), " wrote ", inv.str(), " at derived(", x, ",", y, "), source(", sx, ",", sy, ") reads ", pt::get_pix(s.src(sx, sy)).str()));
                 pt::set_pix(d(x, y), expect);      // restore
             }
+        // conversion to the const view type must keep dimensions and pixel identities
+        {
+            typename W::const_t cd(d);
+            if (cd.width() != m.w || cd.height() != m.h) vh::viol(key("const-conversion-dims"), vh::cat("word=", m.word()));
+            else
+                for (long y = 0; y < m.h; ++y)
+                    for (long x = 0; x < m.w; ++x) {
+                        long sx, sy; m.map(x, y, sx, sy);
+                        ++n_pix;
+                        if (pt::id_of(cd(x, y)) != s.at(sx, sy)) { vh::viol(key("const-conversion-identity"), vh::cat("word=", m.word(), " const_t(view)(", x, ",", y, ")")); break; }
+                    }
+        }
         channels(d, m, std::integral_constant<bool, homogeneous_bytes>());
     }
 
@@ -182,6 +194,18 @@ struct checker {
     };
     template <class CV, class F> void second_level(CV const& cv, mapping const& m, const char* what, F expect) {
         if (cv.width() != m.w || cv.height() != m.h) return;
+        {   // conversion between related adaptor types (view -> const_t) must keep the adaptor's state
+            typename CV::const_t ccv(cv);
+            for (long y = 0; y < m.h; ++y) for (long x = 0; x < m.w; ++x) {
+                long sx, sy; m.map(x, y, sx, sy); ++n_pix;
+                if ((long)ccv(x, y)[0] != expect(sx, sy)) { vh::viol(key(what), vh::cat("word=", m.word(), ".", what, ".const_t (", x, ",", y, ") reads ", (long)ccv(x, y)[0], " expected ", expect(sx, sy))); y = m.h; break; }
+            }
+            auto fl = gil::flipped_left_right_view(ccv);
+            for (long y = 0; y < m.h; ++y) for (long x = 0; x < m.w; ++x) {
+                long sx, sy; m.map(m.w - 1 - x, y, sx, sy); ++n_pix;
+                if ((long)fl(x, y)[0] != expect(sx, sy)) { vh::viol(key(what), vh::cat("word=", m.word(), ".", what, ".const_t.flipLR (", x, ",", y, ")")); y = m.h; break; }
+            }
+        }
         static const int ops2[] = {OP_FLIPLR, OP_FLIPUD, OP_TRANSPOSE, OP_ROT90CW, OP_ROT180, OP_SS21, OP_SS23, OP_SUBIMAGE};
         for (int op : ops2) {
             mapping m2(m.w, m.h); m2.push(op);
